@@ -46,7 +46,8 @@ CONSTANTS
     GLevel,       \* W2: grid level G
     GRectCodes,   \* W2: rectangles  (((f*K + i0)*K + i1)*K + j0)*K + j1,  K = 2^G + 1
     GRowCodes,    \* W2: rows        ((f*K + i0)*K + i1)*K + j
-    GTgtCodes     \* W2: targets     (f*K2 + i)*K2 + j,  K2 = 2^(G+2): centre of that level G+2 cell
+    GTgtCodes,    \* W2: targets     (f*K2 + i)*K2 + j,  K2 = 2^(G+2): centre of that level G+2 cell
+    GCloudCodes   \* W2: set of sets of target codes: index targets made of several cell centres
 
 ASSUME N \in 1..3
 
@@ -316,16 +317,22 @@ GTgts == SetToSortSeq(GTgtCodes, <)
 \* the centre of the level G+2 cell (i, j) of face f is strictly inside the rectangle iff ...
 GInside(r, tg) == tg.f = r.f /\ 4 * r.i0 <= tg.i /\ tg.i < 4 * r.i1 /\ 4 * r.j0 <= tg.j /\ tg.j < 4 * r.j1
 
-InitW2 == t \in {<<r>> : r \in 1..Len(GTgts)}
+GClouds == SetToSortSeq({c \in GCloudCodes : c # {}},
+                        LAMBDA A, B : MinIdx(A) < MinIdx(B) \/ (MinIdx(A) = MinIdx(B) /\ SumSet(A) < SumSet(B)))
+InitW2 == t \in {<<r>> : r \in 1..(Len(GTgts) + Len(GClouds))}
 NextW2 == Len(t) = 1 /\ t' \in {<<t[1], far, 1>> : far \in {0, 1}}
 CaseW2 ==
-    LET tg == GTgtOf(GTgts[t[1]])
+    LET codes == IF t[1] <= Len(GTgts) THEN <<GTgts[t[1]]>> ELSE SetToSortSeq(GClouds[t[1] - Len(GTgts)], <)
+        tgs == [i \in 1..Len(codes) |-> GTgtOf(codes[i])]
     IN  [op |-> "eq", w |-> 2, shapes |-> GShapesAll,
-         tgt |-> [k |-> "gctr", v |-> <<<<tg.f, GLevel + 2, tg.i, tg.j>>>>], far |-> Far,
+         tgt |-> [k |-> IF Len(codes) = 1 THEN "gctr" ELSE "gcloud",
+                  v |-> [i \in 1..Len(tgs) |-> <<tgs[i].f, GLevel + 2, tgs[i].i, tgs[i].j>>]],
+         far |-> Far,
+         \* one connected component of the target inside the polygon is enough
          ins |-> [s \in 1..Len(GShapesAll) |->
                     IF s > Len(GRects) THEN -1
                     ELSE IF Far THEN 0
-                    ELSE IF GInside(GRects[s], tg) THEN 1 ELSE -1]]
+                    ELSE IF \E i \in 1..Len(tgs) : GInside(GRects[s], tgs[i]) THEN 1 ELSE -1]]
 EmitW2 == IF Full THEN PrintT(<<"CASE", ToJson(CaseW2)>>) ELSE TRUE
 \* the grid loops are simple: 2(w+h) distinct corners
 GridLoopsSimple ==
